@@ -40,7 +40,8 @@ From GV Require Import Base.Ints Gen.Math Gen.Kernel Model.Network Model.Mirror 
   Proofs.MirrorResumeOps Proofs.MirrorResume Proofs.MirrorTotalM Proofs.MirrorTotalXEx
   Proofs.MirrorAgree Proofs.MirrorAgreeWitness
   Proofs.MirrorAgreeX Proofs.MirrorHdrGoodX Proofs.MirrorAgreeXC Proofs.MirrorAgreeXWit.
-From GV Require Import Gen.StepSM Model.StateMachine Proofs.ComposeA1 Proofs.MirrorAgreeXCompose.
+From GV Require Import Gen.StepSM Model.StateMachine Proofs.ComposeA1 Proofs.ComposeA1Witness
+  Proofs.MirrorAgreeXCompose Proofs.MirrorAgreeXComposeWit.
 Import ListNotations.
 Local Open Scope N_scope.
 
@@ -530,3 +531,35 @@ Theorem C03X_hypotheses_satisfiable_with_local_actions :
   commits (ms_k mL) = [(2, [8], 1); (1, [9], 0)] /\ commits (ms_k mP) = [(2, [8], 1); (1, [9], 0)].
 Proof. exact mirrors_agree_m_hypotheses_satisfiable. Qed.
 Print Assumptions C03X_hypotheses_satisfiable_with_local_actions.
+
+(** the closure of C05Act: node [mD] (a peer's proposed header, entrance with key 7, own prevote and
+    precommit, entrance at height 2, its OWN proposed header - filed under [accept_facts] - and its own
+    precommit for it) and node [mE] (peers' messages only) *)
+Theorem C03X_hypotheses_satisfiable_with_local_actions_no_crashes :
+  vs_ok MirrorTotal.ex_vs = true /\ lreachable 1 MirrorTotal.ex_vs mD /\ lreachable 1 MirrorTotal.ex_vs mE /\
+  cert_sigs_in dV (ms_k mD) /\ cert_sigs_in dV (ms_k mE) /\ hash_binds_next (ms_k mD) (ms_k mE) /\
+  (forall h x1 cp1 x2 cp2, In (h, (x1, cp1)) (Mirror.st_hdrs (ms_k mD)) -> In (h, (x2, cp2)) (Mirror.st_hdrs (ms_k mE)) ->
+     byz_bound (chain_vals 1 MirrorTotal.ex_vs (Mirror.st_hdrs (ms_k mD)) h) [] /\
+     A1m (chain_vals 1 MirrorTotal.ex_vs (Mirror.st_hdrs (ms_k mD)) h) [] dV h /\
+     A2m (chain_vals 1 MirrorTotal.ex_vs (Mirror.st_hdrs (ms_k mD)) h) [] dV h /\
+     A3m (chain_vals 1 MirrorTotal.ex_vs (Mirror.st_hdrs (ms_k mD)) h) [] dV h) /\
+  commits (ms_k mD) = [(2, [8], 0); (1, [9], 0)] /\ commits (ms_k mE) = [(2, [8], 0); (1, [9], 0)].
+Proof. exact mirrors_agree_l_hypotheses_satisfiable. Qed.
+Print Assumptions C03X_hypotheses_satisfiable_with_local_actions_no_crashes.
+
+(** the composed theorem end to end: the engines of the correct keys 10, 11, 12 each run the state
+    machine history [hist1]; Byzantine key 13 precommits [1] and [2]; mirror [xA] commits header [1]
+    from the precommits of 10, 11, 12 and is restarted; mirror [xC] crashes between the
+    committed-header write and the position write of its commit (precommits of 11, 12, 13) *)
+Theorem C03X_composed_hypotheses_satisfiable_after_crash :
+  vwf evs /\ reachable_g 1 evs xA /\ reachable_g 1 evs xC /\
+  cert_sigs_in e2e_V xA /\ cert_sigs_in e2e_V xC /\ hash_binds_next xA xC /\
+  V_from_machines e2e_V e2e_B e2e_sg e2e_runs /\
+  (forall h' x1 cp1 x2 cp2, h' <= 1 ->
+     In (h', (x1, cp1)) (Mirror.st_hdrs xA) -> In (h', (x2, cp2)) (Mirror.st_hdrs xC) ->
+     cp_round cp1 = cp_round cp2 /\ byz_bound (chain_vals 1 evs (Mirror.st_hdrs xA) h') (e2e_B h')) /\
+  commits xA = [(1, [1], 0)] /\ commits xC = [(1, [1], 0)] /\ cert_sigs xA <> cert_sigs xC /\
+  st_nhr xA = (2, 0, 1, 0) /\ st_nhr xC = (2, 0, 1, 0) /\
+  In (SVote 13 KPrecommit 1 0 [1]) e2e_V /\ In (SVote 13 KPrecommit 1 0 [2]) e2e_V.
+Proof. exact composed_hypotheses_satisfiable_after_crash. Qed.
+Print Assumptions C03X_composed_hypotheses_satisfiable_after_crash.
